@@ -346,6 +346,7 @@ func groupWorker(r *ev.Run, g string, idx, cnt int, deadline int64, scs []Scenar
 	w.Write(b)
 	w.WriteString("\n")
 	w.Flush()
+	ev.StopProfile()
 	os.Exit(0)
 }
 
@@ -389,6 +390,7 @@ func worker(r *ev.Run, byName map[string]Scenario, all []Scenario) {
 	w.Write(b)
 	w.WriteString("\n")
 	w.Flush()
+	ev.StopProfile()
 	os.Exit(0)
 }
 
